@@ -64,6 +64,7 @@ struct HookState {
     log_enabled: bool,
     log: Vec<LpEvent>,
     pending: Option<(Array2<f64>, Array1<f64>, Array1<f64>)>,
+    real_errors: usize,
 }
 
 thread_local! {
@@ -83,6 +84,7 @@ pub fn arm(plan: HashMap<usize, LpFault>, fault_all: Option<LpFault>, log: bool)
         s.log_enabled = log;
         s.log.clear();
         s.pending = None;
+        s.real_errors = 0;
     });
 }
 
@@ -104,6 +106,12 @@ pub fn disarm() -> (usize, Vec<LpEvent>) {
 /// (recorded whenever the hook is armed).
 pub fn pending_query() -> Option<(Array2<f64>, Array1<f64>, Array1<f64>)> {
     STATE.with(|s| s.borrow().pending.clone())
+}
+
+/// Number of calls since the hook was armed for which the real solver itself answered
+/// [`PolytopeStatus::Error`] (independent of injected faults).
+pub fn real_errors() -> usize {
+    STATE.with(|s| s.borrow().real_errors)
 }
 
 /// Number of LP calls observed since the hook was armed.
@@ -172,6 +180,9 @@ pub fn lp_hook(poly: &Polytope, coeffs: &Array1<f64>) -> Option<PolytopeStatus> 
         let mut s = s.borrow_mut();
         s.reentrant = false;
         s.pending = None;
+        if matches!(real, PolytopeStatus::Error(_)) {
+            s.real_errors += 1;
+        }
         let index = s.counter;
         s.counter += 1;
         let fault = s.plan.get(&index).cloned().or_else(|| s.fault_all.clone());
